@@ -146,6 +146,13 @@ CORPUS = [
     (B, "C17,C20", "math/_tensor.py", "        B[dim[0] :] *= 2", "        B[3:] *= 2"),
     (B, "C09,C08", "dof/_loadcase.py", "                lefts[i] = f.region.mesh.points[:, axis].min()", "                lefts[i] = f.region.mesh.points[:, axes].min()"),
     (B, "C03", "constitution/hyperelasticity/_neo_hooke_nearly_incompressible.py", "        mu = self.mu\n        bulk = self.bulk\n\n        J = det(F)\n        iFT = transpose(inv(F, J))\n\n        A4 = out", "        mu = self.kwargs.get(\"mu\")\n        bulk = self.kwargs.get(\"bulk\")\n\n        J = det(F)\n        iFT = transpose(inv(F, J))\n\n        A4 = out"),
+    # ---- round 10: repairs reverted and its classes
+    (B, "C04,C06", "element/_lagrange.py", "def lagrange_quad(order):\n    \"Return the cell-connectivity for an arbitrary-order Lagrange quad.\"\n\n    # a cell of order zero has one (constant) point only\n    if order == 0:\n        return np.zeros(1, dtype=int)\n",
+     "def lagrange_quad(order):\n    \"Return the cell-connectivity for an arbitrary-order Lagrange quad.\"\n"),
+    (B, "C16", "mesh/_tools.py", "    if points_phi[-1] - points_phi[0] == 360:", "    if points_phi[-1] == 360:"),
+    (B, "C07,C08", "dof/_tools.py", "offsets = np.insert(field.offsets, 0, 0)", "offsets = np.insert(np.array(field.fieldsizes)[:-1], 0, 0)"),
+    (B, "C13", "region/_boundary.py", "            point_selection = np.arange(len(mesh.points))[mask]", "            point_selection = np.flatnonzero(mask)"),
+    (B, "C19", "tools/_project.py", "    A = IntegralFormCartesian(np.ones((1, 1)), v=v, dV=dV, u=u).assemble()", "    A = IntegralFormCartesian(np.ones((1, 1)), v=v, dV=region.dV, u=u).assemble()"),
     # ---- behaviour-preserving edits: the listed checks must stay silent
     (K, "C04", "element/_quad.py", "            * 0.25\n        )\n\n    def gradient", "            / 4\n        )\n\n    def gradient"),
     (K, "C17,C03", "math/_tensor.py", "    out = np.add(A, transpose(A), out=out)\n    return np.multiply(out, 0.5, out=out)", "    out = np.add(A, transpose(A), out=out)\n    return np.divide(out, 2, out=out)"),
@@ -171,6 +178,7 @@ CORPUS = [
     (K, "C07", "solve/_solve.py", "    dr0 = K10.dot(ext0 - u0)\n", "    du0 = ext0 - u0\n    dr0 = K10.dot(du0)\n"),
     (K, "C06", "region/_region.py", "                        region.d2hdrdr\n                        - np.einsum(\"aMqc,MIJqc->aIJqc\", region.dhdX, d2Xdrdr),\n", "                        -(np.einsum(\"aMqc,MIJqc->aIJqc\", region.dhdX, d2Xdrdr) - region.d2hdrdr),\n"),
     (K, "C09", "mechanics/_curve.py", ".values[self.boundary.points[0]].copy())", ".values[self.boundary.points[0]] + 0)"),
+    (K, "C16", "mesh/_tools.py", "    if points_phi[-1] - points_phi[0] == 360:", "    if (points_phi[-1] - points_phi[0]) == 360:"),
     (K, "C19,C18", "mechanics/_solidbody.py", "        return dot(P, transpose(F))\n\n    def _cauchy_stress", "        FT = transpose(F)\n        return dot(P, FT)\n\n    def _cauchy_stress"),
 ]
 
